@@ -217,19 +217,25 @@ class TransformedPdf(Contract):
         cx.oblige("frame.pdf", not self.obj.writes and self.x.buf.writes == 0, "frame")
 
 
-@contract(TM + ".draw_sample", ["C16"], [dict(rs=r) for r in ("none", "seed")], name="transformed.draw_sample")
+@contract(TM + ".draw_sample", ["C16", "C03"], [dict(rs=r) for r in ("none", "seed")] + [dict(rs="seed", cache="filled")], name="transformed.draw_sample")
 class TransformedDraw(Contract):
     """samples are the inverse-transformed samples of the base model; with the model's random_state set the base
     draw is seeded by it (so that everything derived from it is reproducible)"""
 
     def case_label(self, case):
-        return f"model.random_state={case['rs']}"
+        return f"model.random_state={case['rs']}" + (",cached_sample=filled" if case.get("cache") else "")
 
     def inputs(self, itp, case):
         cx = itp.cx
         self.n = integer(cx, "n")
         me = self
         self.base_sample = None
+        # history: the lazily filled Monte-Carlo cache (used by empirical_cdf) may already hold a large sample
+        self.cached = None
+        if case.get("cache"):
+            nc = cx.sym("n_cached", "int")
+            cx.assume(T.ge(nc, self.n.t))
+            self.cached = sym_array(cx, "cached_sample", (nc, 2), owner="arg")
 
         class Base(Opaque):
             type_name = "GlobalHierarchicalModel"
@@ -250,7 +256,7 @@ class TransformedDraw(Contract):
         self.inv_result = sym_array(cx, "inv_sample", (self.n.t, 2), owner="call")
         self.inverse = CallRec("inverse", lambda itp_, a, k: self.inv_result)
         self.seed = integer(cx, "seed") if case["rs"] == "seed" else None
-        self.obj = SObj(TM, {"model": self.base, "transform": None, "jacobian": None, "inverse": self.inverse, "n_dim": 2, "random_state": self.seed, "_sample": None, "precision_factor": Fraction(1)}, owner="arg")
+        self.obj = SObj(TM, {"model": self.base, "transform": None, "jacobian": None, "inverse": self.inverse, "n_dim": 2, "random_state": self.seed, "_sample": self.cached, "precision_factor": Fraction(1)}, owner="arg")
         return [self.obj, self.n], {}
 
     def post(self, itp, case, inp, out):
